@@ -388,7 +388,7 @@ theorem accept_comm (r₁ r₂ : TRule) (p : Probe) : Spec.accept [r₁, r₂] p
   rw [accept_pair, accept_pair, Bool.and_comm]
 
 def coversBlock (b : Block) : Bool :=
-  decide (b.singles.map (·.1) = instances b.fty.base.cls) &&
+  decide (b.singles.map (·.1) = singleInstances b.fty.base) &&
   decide (b.pairs.map (fun p => (p.1, p.2.1)) = pairInstances b.fty.base.cls) &&
   b.singles.all (fun s => s.2.length == b.probes.length) &&
   b.pairs.all (fun p => p.2.2.1.length == b.probes.length && p.2.2.2.length == b.probes.length) &&
